@@ -116,6 +116,8 @@ def jobs(tier, seed):
             n)))) for _ in range(3)]
         for i, el in enumerate(els):
           for s in SIX:
+            if el is None and s == 'budget' and m == 'exhaustive':
+              continue   # default eligibility on 4 geos: does not exhaust
             out.append(_mk(panel, m, [s], el, i, seed=seed))
           for pr in PAIRS6:
             if el is None and ('budget' in pr or set(pr) == {'share', 'vol'}):
